@@ -1021,7 +1021,7 @@ bool Builder::FinishCommand(BuildResult::CommandCompleted& result,
 
   // Delete any left over response file.
   string rspfile = edge->GetUnescapedRspfile();
-  if (!rspfile.empty() && !g_keep_rsp)
+  if (!rspfile.empty() && !g_keep_rsp && !config_.dry_run)
     disk_interface_->RemoveFile(rspfile);
   VERIF_CRASH_POINT("finish-after-rspfile-removal");
 
